@@ -33,7 +33,7 @@ func encodeNumeric(content string, ecl ErrorCorrectionLevel) (*utils.BitList, *v
 		}
 
 		i, err := strconv.Atoi(curStr)
-		if err != nil || i < 0 {
+		if err != nil || i < 0 || curStr[0] < '0' || curStr[0] > '9' {
 			return nil, nil, fmt.Errorf("\"%s\" can not be encoded as %s", content, Numeric)
 		}
 		var bitCnt byte
